@@ -202,8 +202,13 @@ func checkOwned(born ssa.Instruction, v ssa.Value, errV ssa.Value, r *ownRules) 
 		}
 		return pathContinue
 	}
+	okFlag := pairedOkFlag(v)
 	edgeOK := func(from, to *ssa.BasicBlock) bool {
 		for _, f := range edgeFacts(from, to) {
+			if okFlag != nil && f.Sub == nil && strip(f.V) == okFlag && !f.True {
+				how["void-not-ok"]++
+				return false // the creator reported ok == false: it hands out nothing then (checked in pairedOkFlag)
+			}
 			if x, isNil, ok := nilTest(f); ok {
 				if errPath != "" && !isNil && accessPath(x) == errPath {
 					how["void-err"]++
@@ -282,6 +287,59 @@ func namedTypeName(t types.Type) string {
 }
 
 // pairedError returns the error-typed Extract of the same call tuple as v (for v = extract #k of a call), if any.
+// pairedOkFlag: v is result #k of a static call to a repo function that also returns a bool, and every return of that
+// function either carries the constant true or carries nil as result #k together with the constant false: then the
+// bool is an "ok" flag whose false edge voids the obligation on v. Returns the flag's Extract.
+func pairedOkFlag(v ssa.Value) ssa.Value {
+	ex, ok := v.(*ssa.Extract)
+	if !ok {
+		return nil
+	}
+	call, ok := ex.Tuple.(*ssa.Call)
+	if !ok {
+		return nil
+	}
+	g := call.Call.StaticCallee()
+	if g == nil || g.Blocks == nil {
+		return nil
+	}
+	res := g.Signature.Results()
+	bi := -1
+	for k := 0; k < res.Len(); k++ {
+		if b, isB := res.At(k).Type().Underlying().(*types.Basic); isB && b.Kind() == types.Bool {
+			if bi >= 0 {
+				return nil
+			}
+			bi = k
+		}
+	}
+	if bi < 0 {
+		return nil
+	}
+	for _, r := range returnsOf(g) {
+		if len(r.Results) != res.Len() {
+			return nil
+		}
+		k, isC := constOf(strip(returnedValue(r, bi)))
+		if !isC {
+			return nil
+		}
+		if k.ExactString() == "false" && !isNilValue(returnedValue(r, ex.Index)) {
+			return nil
+		}
+	}
+	refs := call.Referrers()
+	if refs == nil {
+		return nil
+	}
+	for _, r := range *refs {
+		if e2, isE := r.(*ssa.Extract); isE && e2.Index == bi {
+			return e2
+		}
+	}
+	return nil
+}
+
 func pairedError(v ssa.Value) ssa.Value {
 	ex, ok := v.(*ssa.Extract)
 	if !ok {
